@@ -65,7 +65,10 @@ def main():
         "checks": checks,
         "notes": "Static analysis family only. Every claim is a necessary structural condition (see DESIGN.md section 0); "
                  "exit 2 + ANALYSIS-ERROR means the analysis could not decide (missing anchor, instance floor), never a verdict. "
-                 "Known findings: known_findings.json.",
+                 "Known findings: known_findings.json - 26 genuine defects were repaired with fix: commits in /repo (entries 'fixed: <commit>', "
+                 "they suppress nothing); 2 are recorded and not repaired (status 'known': C02/W7 a read tied between two loci is counted "
+                 "twice, C11/X5 polyT positions are 2 bp off the mirror image of polyA positions; reasons in DESIGN.md 11.3), the checks "
+                 "print KNOWN-FINDING lines for exactly these keys and exit 0.",
         "not_applicable": [{"property_id": p, "reason": r} for p, r in sorted(NOT_APPLICABLE.items())],
     }
     with open(os.path.join(VERIF, "MANIFEST.json"), "w") as f:
